@@ -46,7 +46,9 @@ PreOK(S)        == WellFormed(S) /\ NameAnoms(S) = {}
 \* a clause: name, applicable?, holds?   (cond is only evaluated when applicable)
 Cl(name, app, cond) == <<name, app, IF app THEN cond ELSE TRUE>>
 
-WFClauses(app, post) ==
+\* (mod: the call is inside the model - a mux declared over a list that names one component twice leaves such a list
+\*  behind by construction; that input class is outside the model and its reference list is not judged)
+WFClausesM(app, post, mod) ==
   << Cl("C14.WF.NameRegistry",       app, NameAnoms(post) = {} /\ WFTotal(post)),
      Cl("C14.WF.UniqueRails",        app, WFUniqueRails(post)),
      Cl("C14.WF.NamesRailsDisjoint", app, WFNamesRailsDisjoint(post)),
@@ -57,7 +59,8 @@ WFClauses(app, post) ==
      Cl("C14.WF.LinkAcceptable",     app, WFLinkAcceptable(post) /\ WFAcyclic(post)),
      \* the ordered parent references (from which the library derives every component's parents) name exactly
      \* the components the graph links it to: a reference to a name that does not exist is a link add_comp refuses
-     Cl("C14.WF.ParentRefs",         app, ParentAnoms(post) = {}) >>
+     Cl("C14.WF.ParentRefs",         app /\ mod, ParentAnoms(post) = {}) >>
+WFClauses(app, post) == WFClausesM(app, post, TRUE)
 
 \* (operator parameters are evaluated once by TLC, LET definitions at every reference)
 EditClauses3(pre, ev, post, exc, preok, mod, acc) ==
@@ -68,7 +71,7 @@ EditClauses3(pre, ev, post, exc, preok, mod, acc) ==
      Cl("note.UnexpectedAccept", mod /\ ~exc, acc),
      Cl("note.OverStrict",       mod /\ exc, ~acc),
      Cl("note.Unmodelled",       TRUE, mod) >>
-  \o WFClauses(preok, post)
+  \o WFClausesM(preok, post, mod)
 EditClauses2(pre, ev, post, exc, preok, mod) ==
   EditClauses3(pre, ev, post, exc, preok, mod, IF mod THEN OpOK(pre, ev.op, ev.args) ELSE FALSE)
 EditClauses1(pre, ev, post, exc, preok) ==
